@@ -74,6 +74,19 @@ class Eval:
             if d in ('np.flatnonzero',) and e.args:
                 v = self.ev(e.args[0], env)
                 return ('IDX', v) if v in (B,) else UNK
+            if d in ('np.append', 'np.concatenate', 'np.hstack', 'np.r_') and e.args:
+                parts = list(e.args[:2]) if d == 'np.append' else (
+                    list(e.args[0].elts) if isinstance(e.args[0], (ast.List, ast.Tuple)) else [])
+                vals = [self.ev(x, env) for x in parts]
+                if vals and all(isinstance(v, tuple) and v[0] == 'IDX' for v in vals):
+                    # two index lists laid end to end: right multiplicities, wrong order
+                    return ('IDXCAT', tuple(v[1] for v in vals))
+                return UNK
+            if d in ('np.sort', 'sorted') and e.args:
+                v = self.ev(e.args[0], env)
+                if isinstance(v, tuple) and v[0] == 'IDXCAT' and set(v[1]) == {F, B}:
+                    return ('IDX', M)       # sorting the concatenated index restores the order
+                return v if isinstance(v, tuple) and v[0] == 'IDX' else UNK
             return UNK
         if isinstance(e, ast.BinOp):
             if isinstance(e.op, ast.Mult) and self._is_r(e, env):
@@ -219,6 +232,8 @@ def rule_Q5(ctx, rid='Q5'):
                     v.value.id == tgt and eq:
                 s = evl.ev(v.slice, env)
                 mult = s[1] if isinstance(s, tuple) and s[0] == 'IDX' else s
+                if isinstance(s, tuple) and s[0] == 'IDXCAT':
+                    mult = s
             elif isinstance(v, ast.Call) and dotted(v.func) == 'np.take' and len(v.args) >= 2 \
                     and isinstance(v.args[0], ast.Name) and v.args[0].id == tgt and eq:
                 s = evl.ev(v.args[1], env)
@@ -247,6 +262,12 @@ def rule_Q5(ctx, rid='Q5'):
                 elif isinstance(mult, tuple) and mult[0] == 'DET':
                     verdict = (False, 'multiplicity is %s(r): deterministic rounding, its '
                                'expectation is not r' % mult[1])
+                elif isinstance(mult, tuple) and mult[0] == 'IDXCAT':
+                    verdict = (False, 'the rows are gathered with an index that lists the '
+                               'guaranteed copies of all samples first and the stochastic extra '
+                               'copies after them: the multiplicities are right but the order '
+                               'of the weighted posterior is not preserved (copies of one '
+                               'sample are no longer adjacent)')
                 elif isinstance(mult, tuple) and mult[0] == 'MUT':
                     verdict = (False, 'the multiplicities are modified after the stochastic '
                                'rounding (`%s`): on that path a row\'s multiplicity is no longer '
